@@ -1776,7 +1776,7 @@ def run_pyocrays(ctx, case):
     ctx.count('pyoc_vs_exact (not judged)', 'equal' if exact == bits(full) else 'differs')
 
 
-SIG_MESH_SNAP_TRUNC = 'MeshNeuron.snap/integer-dtype-vertices/query-truncated-to-integers'
+SIG_MESH_SNAP_TRUNC = 'MeshNeuron.snap/integer-dtype-vertices/query-truncated-to-integers'      # fixed (f2bf081): no longer suppressed
 
 
 def run_snapdt(ctx, case):
@@ -1832,7 +1832,7 @@ def run_snapdt(ctx, case):
     for q, gi, gd, mo in zip(qq, got_id, got_d, model):
         mi, mdd, nties = (int(v) for v in mo.split(':'))
         frac = any(int(v) % 10 for v in q)
-        sig = SIG_MESH_SNAP_TRUNC if (kind == 'mesh' and is_int and frac) else None
+        sig = None      # (MeshNeuron.snap on integer vertices is repaired: f2bf081 — judged like every other table)
         if nties == 1:        # the model casts the query the way the source does (Gen/SnapCast.lean)
             ctx.corr(gi, mi, f'{kind}.snap(to={to}) on a {have} table: id vs model argmin (query cast as in the source)', case,
                      signature=sig)
